@@ -80,6 +80,10 @@ pub enum BAct {
     PartsName(String),
     PartsQual(String, String),
     PartsNs(String),
+    /// parts.qualifiers.entry(k) -> Occupied -> remove()
+    PartsEntryRemove(String),
+    /// parts.qualifiers.retain(non-empty values)
+    PartsRetainNonEmpty,
 }
 
 pub struct BState<T: BFlavor> {
@@ -278,6 +282,12 @@ impl<T: BFlavor> BModel<T> {
         acts.push(BAct::PartsNs("x//y".to_owned()));
         acts.push(BAct::PartsQual("L".to_owned(), "".to_owned()));
         acts.push(BAct::PartsQual("l".to_owned(), "v".to_owned()));
+        for k in ["a", "K", "b"] {
+            acts.push(BAct::PartsEntryRemove(k.to_owned()));
+        }
+        acts.push(BAct::NoQual("a".to_owned()));
+        acts.push(BAct::NoQual("B".to_owned()));
+        acts.push(BAct::PartsRetainNonEmpty);
         BModel { prop, mon, acts, parsed_inits, _t: std::marker::PhantomData }
     }
 }
@@ -297,6 +307,23 @@ impl<T: BFlavor> Model for BModel<T> {
                 let real = GenericPurlBuilder::new(T::make(&t), n);
                 let refb = RefBuilder { ty: t.clone(), name: n.to_owned(), ..Default::default() };
                 out.push((json!({"new": [t, n]}), BState { real, refb }));
+            }
+        }
+        // builders that already hold several qualifiers (so that one removal / one retain acts on the
+        // middle of a longer list), some of them empty-valued and adjacent
+        for (label, quals) in [
+            ("four", vec![("a", "1"), ("b", "2"), ("c", "3"), ("d", "4")]),
+            ("five-with-checksum", vec![("a", "1"), ("b", "2"), ("checksum", "a:00"), ("k", "v"), ("z", "9")]),
+            ("adjacent-empties", vec![("a", ""), ("b", ""), ("c", "3"), ("d", "")]),
+        ] {
+            for t in T::type_universe().into_iter().take(2) {
+                let mut real = GenericPurlBuilder::new(T::make(&t), "n").with_namespace("g");
+                let mut refb = RefBuilder { ty: t.clone(), ns: "g".into(), name: "n".into(), ..Default::default() };
+                for (k, v) in &quals {
+                    real = real.with_qualifier(*k, *v).expect("valid key");
+                    refb.quals.insert((*k).to_owned(), (*v).to_owned());
+                }
+                out.push((json!({"with_qualifiers": [label, t]}), BState { real, refb }));
             }
         }
         // non-initial states: into_builder() of parsed values
@@ -468,6 +495,20 @@ impl<T: BFlavor> Model for BModel<T> {
                 let mut nb = b;
                 nb.parts.namespace = u.as_str().into();
                 r.ns = u.clone();
+                nb
+            },
+            BAct::PartsEntryRemove(k) => {
+                let mut nb = b;
+                if let Ok(purl::qualifiers::Entry::Occupied(o)) = nb.parts.qualifiers.entry(k.as_str()) {
+                    o.remove();
+                }
+                r.quals.remove(&k.to_ascii_lowercase());
+                nb
+            },
+            BAct::PartsRetainNonEmpty => {
+                let mut nb = b;
+                nb.parts.qualifiers.retain(|_, v| !v.is_empty());
+                r.quals.retain(|_, v| !v.is_empty());
                 nb
             },
             BAct::PartsQual(k, v) => {
